@@ -303,3 +303,66 @@ Proof.
   intros. unfold override_perslot, override_interval. apply rel_bind. apply fold_req_rel.
   split; [reflexivity|constructor].
 Qed.
+
+(* ---------- generate_layout_export round trip ---------- *)
+Lemma path_eqb_eq : forall a b, path_eqb a b = true <-> a = b.
+Proof.
+  induction a; destruct b; cbn; split; intros H; try discriminate; auto.
+  - apply andb_prop in H. destruct H as [H1 H2]. apply String.eqb_eq in H1. apply IHa in H2. congruence.
+  - inversion H; subst. rewrite String.eqb_refl. apply IHa. reflexivity.
+Qed.
+
+Lemma export_decl_init : forall m p al nr body, export_decl m p (DInit al nr body) = export_decls m (p ++ [al]) body.
+Proof. intros. cbn [export_decl]. induction body; cbn [export_decls]; [reflexivity|]. rewrite IHbody. reflexivity. Qed.
+
+Lemma export_tree_flat_decl : forall m d p,
+  export_decl m p d = map (fun v => (fst (fst v), snd (fst v), snd v, pos_get m (fst (fst v)))) (flatten_decl p d).
+Proof.
+  intros m d. induction d using decl_ind'; intros p.
+  - reflexivity.
+  - rewrite export_decl_init, flatten_decl_init. generalize (p ++ [al]). intros q.
+    induction H; cbn [export_decls flatten]; [reflexivity|]. rewrite map_app, H, IHForall. reflexivity.
+Qed.
+
+Lemma export_tree_flat : forall m ds p,
+  export_decls m p ds = map (fun v => (fst (fst v), snd (fst v), snd v, pos_get m (fst (fst v)))) (flatten p ds).
+Proof.
+  induction ds; intros p; cbn [export_decls flatten]; [reflexivity|]. rewrite map_app, export_tree_flat_decl, IHds. reflexivity.
+Qed.
+
+Lemma pos_get_nodup : forall es e, NoDup (map e_path es) -> In e es -> pos_get (positions_of es) (e_path e) = Some (e_off e).
+Proof.
+  induction es as [|a es IH]; intros e N I; [contradiction|]. cbn [positions_of map pos_get]. inversion N; subst.
+  destruct I as [<-|I].
+  - replace (path_eqb (e_path a) (e_path a)) with true by (symmetry; apply path_eqb_eq; reflexivity). reflexivity.
+  - destruct (path_eqb (e_path a) (e_path e)) eqn:Q.
+    + apply path_eqb_eq in Q. exfalso. apply H1. rewrite Q. apply in_map. exact I.
+    + apply IH; auto.
+Qed.
+
+(* every state variable is exported exactly once, in declaration order, with the (position, size) it was
+   allocated (qualified names are unique: enforced by the module system) *)
+Theorem export_roundtrip_l : forall lockloc ds slot es,
+  allocate lockloc ds = Ok (slot, es) ->
+  NoDup (map (fun v => fst (fst v)) (flatten [] ds)) ->
+  export_decls (positions_of es) [] ds = map (fun e => (e_path e, e_loc e, e_size e, Some (e_off e))) es.
+Proof.
+  intros lockloc ds slot es A N. rewrite export_tree_flat.
+  unfold allocate, alloc_lock in A.
+  destruct (alloc_in init_state lockloc KEY_SIZE) as [[sl s]|] eqn:L; cbn in A; [|discriminate].
+  destruct (sl =? startof lockloc) eqn:Es; cbn in A; [|discriminate].
+  rewrite alloc_tree_flat in A.
+  destruct (alloc_flat false (flatten [] ds) s) as [[es' s2]|] eqn:F; cbn in A; [|discriminate].
+  inversion A; subst. clear A.
+  assert (Names : map (fun e => (e_path e, e_loc e, e_size e)) es = flatten [] ds).
+  { revert F. generalize (flatten [] ds). clear. intros vs. revert s es s2.
+    induction vs as [|[[p l] sz] vs IH]; intros s es s2 F; cbn [alloc_flat andb] in F.
+    - inversion F. reflexivity.
+    - destruct (alloc_in s l sz) as [[off s1]|]; cbn in F; [|discriminate].
+      destruct (alloc_flat false vs s1) as [[es1 s3]|] eqn:G; cbn in F; [|discriminate]. inversion F; subst.
+      cbn [map]. cbn. f_equal. eapply IH; eauto. }
+  assert (ND : NoDup (map e_path es)).
+  { replace (map e_path es) with (map (fun v => fst (fst v)) (map (fun e => (e_path e, e_loc e, e_size e)) es)) by (rewrite map_map; reflexivity).
+    rewrite Names. exact N. }
+  rewrite <- Names, map_map. apply map_ext_in. intros e He. cbn [fst snd]. rewrite (pos_get_nodup es e ND He). reflexivity.
+Qed.
